@@ -101,6 +101,7 @@ async def _async_history(seed: int, udp: bool, directed: int | None = None, real
     init_delay = rng.choice([0, 0.5, 1.0])
     teardown_delay = rng.choice([0, 0, 0.75, 1.25])
     register_first = rng.random() < 0.5
+    handler_delay = rng.choice([0, 0, 0.3, 2.0])
     if directed is not None:
         init_delay, teardown_delay = (1.0, 0) if directed >= 3 else (0, 1.25)
         register_first = True
@@ -131,6 +132,8 @@ async def _async_history(seed: int, udp: bool, directed: int | None = None, real
 
             async def handle(self, client: Any) -> Any:
                 req = yield
+                # (a busy handler: the other datagrams of this address wait in its queue meanwhile)
+                await asyncio.sleep(handler_delay)
                 await client.send_packet(req)
 
         def make(*a: Any, **kw: Any) -> list[Any]:
@@ -190,13 +193,15 @@ async def _async_history(seed: int, udp: bool, directed: int | None = None, real
                     pass
                 real_clients.append(c)
                 if udp:
-                    c.send(b"hello\n")
+                    for k in range(3):
+                        c.send(b"hello%d\n" % k)
                 elif kind == "half_frame":
                     asyncio.get_running_loop().call_later(0.05, lambda c=c: c.fileno() != -1 and c.send(b"incomplete requ"))
             return
         lst = listeners[-1]
         if udp:
-            lst.push(b"hello\n", ("10.0.0.9", 9))
+            for k in range(3):
+                lst.push(b"hello%d\n" % k, ("10.0.0.9", 9))
             return
         assert client_sock is not None
         for kind in ("idle", "half_frame"):
@@ -226,6 +231,9 @@ async def _async_history(seed: int, udp: bool, directed: int | None = None, real
                 ev("serve_ret", a, "already_running")
             except ServerClosedError:
                 ev("serve_ret", a, "closed_error")
+            except Exception as exc:  # noqa: BLE001
+                inner = ",".join(sorted({type(e).__name__ for e in exc.exceptions})) if isinstance(exc, BaseExceptionGroup) else ""
+                ev("serve_ret", a, f"error:{type(exc).__name__}({inner})")
         elif what == "shutdown":
             ev("shutdown_call", a)
             await server.shutdown()
@@ -293,7 +301,8 @@ async def _async_history(seed: int, udp: bool, directed: int | None = None, real
     return {
         "events": events,
         "meta": f"async {'UDP' if udp else 'TCP'}{' over real loopback sockets' if real else ''} seed={seed} plans={plans} service_init={init_delay}s "
-        f"(tear-down registered {'before' if register_first else 'after'} its wait) teardown={teardown_delay}s connected_clients={with_clients}",
+        f"(tear-down registered {'before' if register_first else 'after'} its wait) teardown={teardown_delay}s connected_clients={with_clients}"
+        + (f" (3 datagrams per address, handler busy for {handler_delay}s)" if udp and with_clients else ""),
     }
 
 
